@@ -16,7 +16,7 @@ structure PendOkW (P : List Pend) (nslow nasync : Nat) (released : List Nat) (ne
     | .run _ slot => p.tag = .r slot ∧ 1 ≤ slot ∧ slot ≤ nslow ∧ slot ∉ released
     | .del _ _ => ∃ n, p.tag = .d n ∧ n ≤ nasync
     | .cls _ => ∃ n, p.tag = .c n ∧ n ≤ nasync
-    | .upl _ n _ _ => p.tag = .u n ∧ n ≤ nasync
+    | .upl _ n _ => p.tag = .u n ∧ n ≤ nasync
   minted : ∀ p ∈ P, ∀ i, sidOf p = some i → i < next
   sids : ∀ p ∈ P, (sidOf p).isSome = true
   relLe : ∀ k ∈ released, k ≤ nslow
@@ -28,7 +28,7 @@ theorem PendOk.weak {d : RState} (h : PendOk d) : PendOkW d.pend d.nslow d.nasyn
   cases hk : p.kind with
   | slow a b => rw [hk] at this; exact this
   | run a b => rw [hk] at this; exact this
-  | upl a b c d => rw [hk] at this; exact this
+  | upl a b c => rw [hk] at this; exact this
   | del i f => rw [hk] at this; exact this.1
   | cls i => rw [hk] at this; exact this.1
 
@@ -58,7 +58,7 @@ theorem PendOkW.strong {P : List Pend} {ns na : Nat} {rel : List Nat} {st : Stat
     cases hk : p.kind with
     | slow a b => rw [hk] at hsh; exact hsh
     | run a b => rw [hk] at hsh; exact hsh
-    | upl a b c d => rw [hk] at hsh; exact hsh
+    | upl a b c => rw [hk] at hsh; exact hsh
     | del i f => rw [hk] at hsh hl; exact ⟨hsh, hl⟩
     | cls i => rw [hk] at hsh hl; exact ⟨hsh, hl⟩
   · intro p hp; exact h.minted p (List.mem_filter.mp hp).1
@@ -103,10 +103,7 @@ theorem pendOf_sid {p : Pend} {x : Tag × Name} (h : pendOf p = some x) : ∃ i,
     | false => simp [hk] at h
     | true => simp [hk] at h; exact ⟨i, rfl, by rw [← h]⟩
   | cls i => simp [hk] at h; exact ⟨i, rfl, by rw [← h]⟩
-  | upl i n f usr =>
-    cases f with
-    | false => simp [hk] at h
-    | true => simp [hk] at h; exact ⟨i, rfl, by rw [← h]⟩
+  | upl i n usr => simp [hk] at h; exact ⟨i, rfl, by rw [← h]⟩
 
 theorem isLive_lift_ne {s : State} {i j : Nat} {G : Sess → Sess} (hG : KeepsId G) (h : j ≠ i) (t : List Sess)
     (ht : t = s.tbl.map (lift i G)) (s2 : State) (h2 : s2.tbl = t) : isLive s2 j = isLive s j := by
@@ -191,7 +188,7 @@ theorem sim_one_op' {cfg : Cfg} {d d' : RState} {m : Mon} {o : Obs} (hs : Sim cf
     cases hkind : p.kind with
     | slow a b => rw [hkind] at hk; cases hk
     | run a b => rw [hkind] at hk; cases hk
-    | upl a b c d => rw [hkind] at hk; cases hk
+    | upl a b c => rw [hkind] at hk; cases hk
     | del j f =>
       rw [hkind] at hk hsh
       obtain ⟨n, hn, _⟩ := hsh
